@@ -1,5 +1,217 @@
 import Rivaas.Proto
-/- Driver for C17 (stub: not built yet) -/
-def main : IO UInt32 := do
-  IO.eprintln "driver for C17 is not built yet"
-  return 2
+import Rivaas.Spec.Gates
+/-
+Driver for C17. The first token after the id is the gate kind.
+
+  B <limit> <skip> <cl: A | G | V int> <body> <eofWithLast> <n> {D k | Z | F}* <dflt> <n> cap* => <status> <ran> <err N|E|L|O> <data>
+  A <n> {user pass}* <realm> <auth> <dec: 0 | 1 bytes> => <ran> <status> <www: 0 | 1 s> <user>
+  C <n> opt* <origin> <funcSays> <isOptions> => <ran> <status> acao acac expose methods headers maxage   (each 0 | 1 s)
+      opt = O n s* | A b | M n s* | H n s* | E n s* | K b | X n | F b
+  M <n> opt* <method> <csrfVerified> <clZero> <n>{name val}* <n>{name val}* <n>{raw upper}* <n>{raw norm}* => <ran> <seen> <original>
+      opt = H s | Q s | A n s* | O n s* | B b | C b
+  T <policy> <path> <pre> <hostSet> <rawQuery> <forceQuery> => <ran> <status> <loc: 0 | 1 s>
+
+A panic of the real code is the single observation token `P`.
+-/
+namespace Rivaas.DriverC17
+open Rivaas.Proto Rivaas.Gates
+
+def b01 (b : Bool) : String := if b then "1" else "0"
+def encOpt : Option Bytes → String
+  | none => "0"
+  | some s => "1 " ++ encStr s
+
+def pair {α β} (p : P α) (q : P β) : P (α × β) := do
+  let a ← p
+  let b ← q
+  pure (a, b)
+
+/-! ### bodylimit -/
+
+def pStep : P Body.Step := do
+  let k ← tok
+  if k == "D" then Body.Step.data <$> nat
+  else if k == "Z" then pure .zero
+  else if k == "F" then pure .fail
+  else failure
+
+def pCL : P Body.CL := do
+  let k ← tok
+  if k == "A" then pure .absent
+  else if k == "G" then pure .garbage
+  else if k == "V" then Body.CL.val <$> int
+  else failure
+
+def pBodyReq : P Body.Req := do
+  let limit ← nat
+  let skip ← bool
+  let cl ← pCL
+  let body ← str
+  let ewl ← bool
+  let script ← list pStep
+  let dflt ← nat
+  let caps ← list nat
+  pure { limit, skip, cl, body, script, eofWithLast := ewl, caps, dflt }
+
+def pErr : P Body.Err := do
+  let k ← tok
+  if k == "N" then pure .none
+  else if k == "E" then pure .eof
+  else if k == "L" then pure .limit
+  else if k == "O" then pure .other
+  else failure
+
+def pBodyObs : P Body.Obs := do
+  let status ← nat
+  let ran ← bool
+  let err ← pErr
+  let data ← str
+  pure { status, ran, data, err }
+
+def showErr : Body.Err → String
+  | .none => "N" | .eof => "E" | .limit => "L" | .other => "O"
+
+def showBodyObs (o : Body.Obs) : String :=
+  s!"{o.status} {b01 o.ran} {showErr o.err} {encStr o.data}"
+
+/-! ### basicauth -/
+
+def pAuthReq : P Auth.Req := do
+  let users ← list (pair str str)
+  let realm ← str
+  let auth ← str
+  let dec ← opt str
+  pure { users, realm, auth, dec }
+
+def pAuthObs : P Auth.Obs := do
+  let ran ← bool
+  let status ← nat
+  let www ← opt str
+  let user ← str
+  pure { ran, status, www, user }
+
+def showAuthObs (o : Auth.Obs) : String :=
+  s!"{b01 o.ran} {o.status} {encOpt o.www} {encStr o.user}"
+
+/-! ### cors -/
+
+def pCorsOpt : P Cors.Opt := do
+  let k ← tok
+  if k == "O" then Cors.Opt.origins <$> list str
+  else if k == "A" then Cors.Opt.allowAll <$> bool
+  else if k == "M" then Cors.Opt.methods <$> list str
+  else if k == "H" then Cors.Opt.headers <$> list str
+  else if k == "E" then Cors.Opt.exposed <$> list str
+  else if k == "K" then Cors.Opt.credentials <$> bool
+  else if k == "X" then Cors.Opt.maxAge <$> nat
+  else if k == "F" then Cors.Opt.originFunc <$> bool
+  else failure
+
+def pCorsReq : P Cors.Req := do
+  let opts ← list pCorsOpt
+  let origin ← str
+  let funcSays ← bool
+  let isOptions ← bool
+  pure { opts, origin, funcSays, isOptions }
+
+def pCorsObs : P Cors.Obs := do
+  let ran ← bool
+  let status ← nat
+  let acao ← opt str
+  let acac ← opt str
+  let expose ← opt str
+  let methods ← opt str
+  let headers ← opt str
+  let maxAge ← opt str
+  pure { ran, status, acao, acac, expose, methods, headers, maxAge }
+
+def showCorsObs (o : Cors.Obs) : String :=
+  s!"{b01 o.ran} {o.status} {encOpt o.acao} {encOpt o.acac} {encOpt o.expose} {encOpt o.methods} {encOpt o.headers} {encOpt o.maxAge}"
+
+/-! ### methodoverride -/
+
+def pMethodOpt : P Method.Opt := do
+  let k ← tok
+  if k == "H" then Method.Opt.header <$> str
+  else if k == "Q" then Method.Opt.query <$> str
+  else if k == "A" then Method.Opt.allow <$> list str
+  else if k == "O" then Method.Opt.onlyOn <$> list str
+  else if k == "B" then Method.Opt.respectBody <$> bool
+  else if k == "C" then Method.Opt.csrf <$> bool
+  else failure
+
+def pMethodReq : P Method.Req := do
+  let opts ← list pMethodOpt
+  let method ← str
+  let csrfVerified ← bool
+  let clZero ← bool
+  let hdr ← list (pair str str)
+  let qry ← list (pair str str)
+  let upper ← list (pair str str)
+  let norm ← list (pair str str)
+  pure { opts, method, csrfVerified, clZero, hdr, qry, upper, norm }
+
+def pMethodObs : P Method.Obs := do
+  let ran ← bool
+  let seen ← str
+  let original ← str
+  pure { ran, seen, original }
+
+def showMethodObs (o : Method.Obs) : String :=
+  s!"{b01 o.ran} {encStr o.seen} {encStr o.original}"
+
+/-! ### trailingslash -/
+
+def pSlashReq : P Slash.Req := do
+  let policy ← nat
+  let path ← str
+  let pre ← str
+  let hostSet ← bool
+  let rawQuery ← str
+  let forceQuery ← bool
+  pure { policy, path, pre, hostSet, rawQuery, forceQuery }
+
+def pSlashObs : P Slash.Obs := do
+  let ran ← bool
+  let status ← nat
+  let loc ← opt str
+  pure { ran, status, loc }
+
+def showSlashObs (o : Slash.Obs) : String :=
+  s!"{b01 o.ran} {o.status} {encOpt o.loc}"
+
+/-! ### verdicts -/
+
+/-- an observation is either the parsed record or `P` (the real code panicked) -/
+def pObs {α} (p : P α) : P (Option α) := do
+  match ← peek with
+  | some "P" => let _ ← tok; pure none
+  | _ => some <$> p
+
+def decideCase {ρ ω} [BEq ω] (id : String) (inp obs : List String)
+    (pReq : P ρ) (pO : P ω) (model : ρ → ω) (spec : ρ → ω → Bool) (cls : ρ → String) (sh : ω → String) : String :=
+  match runP pReq inp, runP (pObs pO) obs with
+  | some r, some o =>
+    let m := model r
+    match o with
+    | some o => verdict id (o == m) (spec r o) (cls r) (sh m)
+    | none => verdict id false false "-" (sh m)
+  | _, _ => s!"{id} bad-case"
+
+def step (line : String) : String :=
+  match splitCase line with
+  | none => "? bad-line"
+  | some (id, inp, obs) =>
+    match inp with
+    | "B" :: rest => decideCase id rest obs pBodyReq pBodyObs Body.serve Body.specOK (fun _ => "-") showBodyObs
+    | "A" :: rest => decideCase id rest obs pAuthReq pAuthObs Auth.serve Auth.specOK (fun _ => "-") showAuthObs
+    | "C" :: rest => decideCase id rest obs pCorsReq pCorsObs Cors.serve
+                       (fun r o => Cors.specOK (Cors.config r.opts) r o) (fun _ => "-") showCorsObs
+    | "M" :: rest => decideCase id rest obs pMethodReq pMethodObs Method.serve
+                       (fun r o => Method.specOK (Method.config r.opts) r o) (fun _ => "-") showMethodObs
+    | "T" :: rest => decideCase id rest obs pSlashReq pSlashObs Slash.serve Slash.specOK (fun _ => "-") showSlashObs
+    | _ => s!"{id} bad-case"
+
+end Rivaas.DriverC17
+
+def main : IO UInt32 := Rivaas.Proto.driverMain Rivaas.DriverC17.step
